@@ -599,15 +599,17 @@ func (m *MediaEngine) updateHeaderExtension(id int, extension string, typ RTPCod
 	for _, localExtension := range m.headerExtensions {
 		if localExtension.uri == extension {
 			h := mediaEngineHeaderExtension{uri: extension, allowedDirections: localExtension.allowedDirections}
-			if existingValue, ok := m.negotiatedHeaderExtensions[id]; ok {
+			if existingValue, ok := m.negotiatedHeaderExtensions[id]; ok && existingValue.uri == extension {
 				h = existingValue
 			}
 
 			switch {
 			case localExtension.isAudio && typ == RTPCodecTypeAudio:
 				h.isAudio = true
+				m.dropOtherHeaderExtensionIDs(id, extension, typ)
 			case localExtension.isVideo && typ == RTPCodecTypeVideo:
 				h.isVideo = true
+				m.dropOtherHeaderExtensionIDs(id, extension, typ)
 			}
 
 			m.negotiatedHeaderExtensions[id] = h
@@ -615,6 +617,29 @@ func (m *MediaEngine) updateHeaderExtension(id int, extension string, typ RTPCod
 	}
 
 	return nil
+}
+
+// dropOtherHeaderExtensionIDs withdraws, for one kind, every mapping of a URI other
+// than keepID: a remote that maps the URI to a new id replaces the earlier mapping,
+// so that a generated media section never lists the URI twice.
+func (m *MediaEngine) dropOtherHeaderExtensionIDs(keepID int, uri string, typ RTPCodecType) {
+	for id, other := range m.negotiatedHeaderExtensions {
+		if id == keepID || other.uri != uri {
+			continue
+		}
+
+		if typ == RTPCodecTypeAudio {
+			other.isAudio = false
+		} else {
+			other.isVideo = false
+		}
+
+		if other.isAudio || other.isVideo {
+			m.negotiatedHeaderExtensions[id] = other
+		} else {
+			delete(m.negotiatedHeaderExtensions, id)
+		}
+	}
 }
 
 func (m *MediaEngine) pushCodecs(codecs []RTPCodecParameters, typ RTPCodecType) error {
